@@ -81,7 +81,38 @@ def clockRun (untils : List Float32) : String :=
     | none => "never"
   " ".intercalate ("ok" :: outs)
 
+/-- `dsp.laws`: the eight `OrderLaws` (Lemmas/DspLaws.lean) evaluated for the `Float32` instance on a grid of
+    special and ordinary values without NaN (a sampled sanity check of the statement "the order-only theorems'
+    hypotheses are true of IEEE numbers"; nothing is proved about `Float32`) -/
+def lawsGrid : List Float32 :=
+  let specials : List UInt32 := [0x00000000, 0x80000000, 0x00000001, 0x80000001, 0x007fffff, 0x00800000, 0x80800000,
+    0x3f000000, 0xbf000000, 0x3f7fffff, 0x3f800000, 0x3f800001, 0xbf800000, 0x40000000, 0x4b000000, 0x4b800000,
+    0x7f7fffff, 0xff7fffff, 0x7f800000, 0xff800000, 0x3eaaaaab, 0x3dcccccd, 0x41a95857, 0x3727c5ac]
+  let gen : List UInt32 := (List.range 96).map (fun i => (UInt32.ofNat i) * 2654435761 + 12345)
+  (specials ++ gen).map Float32.ofBits |>.filter (fun x => !x.isNaN)
+
+def lawsCheck : String := Id.run do
+  let g := lawsGrid.toArray
+  let lt := fun (a b : Float32) => Arith.lt a b
+  let le := fun (a b : Float32) => Arith.le a b
+  for a in g do
+    if lt a a then return s!"FAIL lt_irrefl at {f32Hex a}"
+    for b in g do
+      if le a b != !(lt b a) then return s!"FAIL le_iff_not_lt at {f32Hex a} {f32Hex b}"
+      for c in g do
+        if lt a b && lt b c && !(lt a c) then return s!"FAIL lt_trans at {f32Hex a} {f32Hex b} {f32Hex c}"
+        if !(lt a b) && !(lt b c) && lt a c then return s!"FAIL lt_neg_trans at {f32Hex a} {f32Hex b} {f32Hex c}"
+  let one : Float32 := Arith.one
+  let zero : Float32 := Arith.zero
+  let h : Float32 := half
+  if !(le zero one) then return "FAIL zero_le_one"
+  if !(le zero h) then return "FAIL zero_le_half"
+  if !(le (Arith.neg h) h) then return "FAIL neg_half_le_half"
+  if !(le (Arith.neg one) one) then return "FAIL neg_one_le_one"
+  return s!"ok {g.size}"
+
 def handleDspOp (args : List String) : Option String :=
+  if args == ["dsp.laws"] then some lawsCheck else
   match args with
   | ["dsp.agc", bw, lo, hi, ops] =>
     match f32Of bw, f32Of lo, f32Of hi with
